@@ -250,6 +250,7 @@ impl Check for C13 {
         let mut out = Outcome::new();
         out.steps = a.steps + b.steps + c.steps;
         out.vt_ms = a.vt_ms + b.vt_ms + c.vt_ms;
+        out.digest = a.digest ^ b.digest.rotate_left(1) ^ c.digest.rotate_left(2);
         out.tails = a.tails.clone();
         for (k, v) in b.counters.iter().chain(c.counters.iter()).chain(a.counters.iter()) {
             out.count(k, *v);
@@ -332,6 +333,7 @@ struct WorldRun {
     len_class: String,
     steps: u64,
     vt_ms: u64,
+    digest: u64,
     tails: Vec<Vec<String>>,
 }
 
@@ -580,6 +582,7 @@ async fn run_world(t: Trace, name: char) -> WorldRun {
     seg_kinds.dedup();
     wr.seg_kinds = seg_kinds.join("+");
     wr.steps = w.steps;
+    wr.digest = w.digest;
     wr.vt_ms = rt::virtual_elapsed_ms();
     wr.tails = w.conns.iter().map(|c| c.all_lines.iter().rev().take(10).rev().cloned().collect()).collect();
     wr
